@@ -544,9 +544,15 @@ def long_cycle_case(ctx, mon, n, broken_at=None):
     tok = r"(?P<SPACE>\s+)|(?P<A>a)|(?P<X>x)|(?P<Y>y)"
     case = {"kind": "long-cycle", "n": n, "broken_at": broken_at}
     ctx.evaluated()
-    mon.start_ctor(None)
+    # (the search is quadratic in the length of such a chain - about 5 n^2 executed lines; eight times that is the
+    # bound a search that does not come to an end runs into)
+    bound = 40 * n * n + 100_000
+    mon.start_ctor(bound)
     try:
         llparser.LLParser(tok, synonyms={'A': 'a', 'X': 'x', 'Y': 'y'}, productions=prods, start_symbol_name='S0')
+    except llmon.CtorStepBoundExceeded:
+        ctx.violation("left-recursion-check-exceeds-step-bound", {"lines": mon.ctor_lines, "bound": bound, "symbols": n}, case)
+        return
     except llparser.GrammarIsRecursive:
         if broken_at is not None:
             ctx.violation("non-recursive-grammar-rejected", {"family": "long chain", "symbols": n}, case)
